@@ -26,7 +26,7 @@ use std::collections::{BTreeMap, BTreeSet};
 use std::path::{Path, PathBuf};
 use std::sync::Arc;
 
-const DIRECTED: u64 = 9;
+const DIRECTED: u64 = 10;
 
 pub fn run(cfg: &Cfg) -> i32 {
     let mut r = Report::new(
@@ -119,6 +119,8 @@ fn directed_case(idx: u64) -> Case {
         5 => ("*** Delete File: keep.txt\n*** Add File: keep.txt\n+again\n*** Add File: LONG\n+x", "directed/enametoolong_last"),
         // truncated document after valid ops
         6 => ("*** Delete File: keep.txt\n*** Update File: src/a.txt\n@@\n-one\n+1", "directed/truncated"),
+        // delete a file, create a directory *tree* in its place (two levels), then fail
+        9 => ("*** Delete File: p\n*** Add File: p/d/child.txt\n+x\n*** Add File: p/d/e/other.txt\n+y\n*** Delete File: missing.txt", "directed/delete_then_add_tree_under_then_fail"),
         // a file consisting of one empty line
         8 => ("*** Add File: blank.txt\n+\n*** Delete File: bin.dat", "directed/add_single_empty_line"),
         // constructive CRLF / no-final-newline update + move
@@ -242,7 +244,9 @@ fn gen_case(cfg: &Cfg, idx: u64) -> Case {
                             Op::Update { path: p.clone(), move_to: Some(fresh.path(&mut rng, &state)), hunks }
                         };
                         if let Some(s1) = step(&state, &first) {
-                            let second = Op::Add { path: format!("{p}/under.txt"), lines: vec!["u".into()] };
+                            // the new entries sit directly below the former file or one / two directories deeper
+                            let below = *rng.pick(&["under.txt", "d1/under.txt", "d1/d2/under.txt", "d1/under.txt"]);
+                            let second = Op::Add { path: format!("{p}/{below}"), lines: vec!["u".into()] };
                             if let Some(s2) = step(&s1, &second) {
                                 state = s2;
                                 touched.extend(first.named_paths());
